@@ -29,15 +29,17 @@ LEVEL_TEXT = 'All endpoint pairs / group operations / directions of every listed
 LEVEL_NOTE = 'The rate matrix used in the residual is assembled from the jump list in the site basis (mc/refmodels/pair.Net), independent of the Fourier/Taylor machinery.'
 
 QUICK = [('SC', 0), ('FCC', 0), ('BCC', 0), ('HCP', 0), ('OMEGA', 0), ('ROMEGA', 0), ('SQUARE', 0), ('HONEY', 0), ('KAGOME', 0), ('RECTM', 0), ('B2', 0),
-         ('OBLIQUE', 1), ('RHOM', 1), ('MONO', 2)]     # the last three: principal axes of D not along the Cartesian axes
+         ('OBLIQUE', 1), ('RHOM', 1), ('MONO', 2),     # these three: principal axes of D not along the Cartesian axes
+         ('OBL3', 0)]      # three sites without any symmetry: non-commuting relaxive block with linear coupling
 THOROUGH = QUICK + [('PYROPE', 0), ('TET', 1), ('ORTH', 2), ('DIAMOND', 0), ('L12', 0), ('NBO', 0), ('TRIA', 0), ('CRECT', 1), ('HEXP', 1), ('TRIC', 2),
                     ('FCC', 1), ('HONEY', 1), ('WURTZ2', 0)]      # (RUMPLED2 does not percolate along z: D is singular and the GF undefined)
 RBOUND = {'T': 1e-5, 'G1': 1e-5, 'G2': 1e-2}     # observed <= 4e-6 (T, G1) and <= 4e-3 (G2, oblique 2D) with Nmax = 4
+RBOUND_2D_MULTISITE = {'T': 1e-4, 'G1': 1e-4, 'G2': 1e-2}   # 2D cells with >= 3 sites converge more slowly (OBL3: 3e-5 / 8e-5 at Nmax 4, halved at 6)
 
 
 def BOUNDS(tier):
     return {'crystals': QUICK if tier == 'quick' else THOROUGH, 'bases': ['T', 'G1', 'G2'], 'k': '0 (+ one doubled site prefactor per Wyckoff set at G1 on multi-set crystals)' if tier == 'quick' else 1,
-            'residual bound (Nmax=4)': dict(RBOUND, deviation_nodes='10 x the bound of the base; none for the +5 letter'), 'refinement': 'r(Nmax=6) <= 0.6 r(Nmax=4) + 1e-9' + ('' if tier == 'quick' else '; r(8) <= 0.6 r(6) + 1e-9'),
+            'residual bound (Nmax=4)': dict(RBOUND, deviation_nodes='10 x the bound of the base; none for the +5 letter', two_dimensional_cells_with_3_or_more_sites=RBOUND_2D_MULTISITE), 'refinement': 'r(Nmax=6) <= 0.6 r(Nmax=4) + 1e-9' + ('' if tier == 'quick' else '; r(8) <= 0.6 r(6) + 1e-9'),
             'endpoint range': 1 if tier == 'quick' else 2, 'scales': [2., 1e-3],
             'far field': '3D connected networks, base nodes T and G1 only; |ratio-1| <= 5% at a quarter of the mesh period'}
 
@@ -112,7 +114,7 @@ def evaluate(case):
     # ten times the bound of its base, and none at all when the deviation is the +5 letter (rate ratio 150: the residual of
     # the default mesh reaches 0.4 on 2D two-site cells; without the refinement runs nothing can be decided there)
     strong = any(l == 2 for c, l in devs)
-    rbound = RBOUND[base] * (10. if devs else 1.)
+    rbound = (RBOUND_2D_MULTISITE if (dim == 2 and net.N >= 3) else RBOUND)[base] * (10. if devs else 1.)
     if not np.isfinite(res[4]) or (res[4] > rbound and not strong):
         viols.append({'oracle': 'residual', 'key': key, 'detail': {'residual': res, 'bound': rbound}})
     for a, b in ((4, 6), (6, 8)):
